@@ -63,7 +63,7 @@ def c01_7(cx):
     cx.flow(q, q.origin_local(0), [r"^tuple\{0: <C as function::Configuration>::execute\(\$1, .*id_to_input\(\$2, .*\)\), 1: \$3\}$"], [], "execute_query returns (C::execute(db, id_to_input(id)), active_query)")
 
 
-@ob("C01.8", ["C01", "C02", "C12"], also=["C03"], nec="backdating across a durability decrease, for a provisional old memo, with cycle heads, or without value equality lets dependents keep a result computed from a value that did change", kind="ONLYIF+FLOW")
+@ob("C01.8", ["C01", "C02", "C12"], also=["C03", "C05"], nec="backdating across a durability decrease, for a provisional old memo, with cycle heads, or without value equality lets dependents keep a result computed from a value that did change", kind="ONLYIF+FLOW")
 def c01_8(cx):
     """backdate is called only if old.can_backdate(new) and old.value().is_some_and(|v| C::values_equal(v, new_value)); can_backdate is true only if new.cycle_heads().is_empty() and !old.may_be_provisional() and new.durability >= old.durability; backdate copies old changed_at into the new revisions."""
     b = cx.fn(F + r"backdate::<impl function::IngredientImpl<C>>::backdate_if_appropriate$")
@@ -71,7 +71,9 @@ def c01_8(cx):
     can = CallIs(BD + r"can_backdate$", True, [r"^\$2\.header$", r"^\$4$"], desc="old_memo.header.can_backdate(revisions)")
     eq = CallIs(r"^std::option::Option::<T>::is_some_and$", True, [r"^function::memo::Memo::<C>::value\(\$2\)$"], desc="old_memo.value().is_some_and(values_equal)")
     cx.only_if(b, bd, can, "backdate only if can_backdate")
-    cx.only_if(b, bd, eq, "backdate only if the old value exists and values_equal")
+    with cx.only("C01", "C02", "C12", "C05"):
+        # an evicted memo (value None) is not "equal": recomputing it after an input change must not inherit the old stamp (C05)
+        cx.only_if(b, bd, eq, "backdate only if the old value exists and values_equal")
     a = cx.args(bd)
     cx.flow(b, a[0], [r"^\$2\.header$"], [], "backdate reads the OLD memo's header", bd)
     cx.flow(b, a[2], [r"^\$4$"], [], "backdate writes the NEW revisions", bd)
